@@ -473,6 +473,11 @@ def overriders(I, static_cls, fi):
 
 
 def call_repo(I, st, fi, args, kwargs, node, is_property=False, static=False):
+    if fi.qualname == "basana.core.dt.utc_now":
+        # trusted: the wall clock, read through the monotone ghost clock (assumption: it never goes backwards)
+        from . import asyncio_model
+        I.drops.add("dt.utc_now() read as a monotone ghost clock")
+        return asyncio_model.clock_read(I, st, "utc")
     # ---- dynamic dispatch ---------------------------------------------------------------
     if fi.cls is not None and args and not static and not fi.is_static:
         recv = args[0]
@@ -675,10 +680,11 @@ class Every:
             for attr, fty in REG.get(n).all_fields(REG).items():
                 b = strip_opt(fty)
                 if is_ref(b) and REG.get(b[1]).kind != "object":
-                    fids.append(prelude.field_id(attr))
+                    # the container stored in field `attr` has the field's declared container class (typed heap)
+                    fids.append(z3.And(prelude.owner_fld(r) == prelude.field_id(attr), st.cls_is(r, b[1])))
         if not fids:
             return FALSE
-        return z3.And(st.cls_is(prelude.owner_obj(r), self.cls), z3.Or(*[prelude.owner_fld(r) == f for f in fids]))
+        return z3.And(st.cls_is(prelude.owner_obj(r), self.cls), z3.Or(*fids))
 
 
 def _modifies_one(I, st, env, mn, out):
